@@ -2766,6 +2766,14 @@ func init() {
 	registerExtra("C09", func(c *Ctx, r *Report) {
 		r.WithAlias(map[string]string{"C03-R1": "C09-R10"}, func() { checkC03(c, r) })
 	})
+	// the engines dispatch within the candidate list the routing strategy left (an empty or nil list means "none
+	// qualify", not "choose yourself"): each entry hands its own list down to the retry loop (C09, C11)
+	registerExtra("C09", func(c *Ctx, r *Report) {
+		r.WithAlias(map[string]string{"C04-R5": "C09-R14"}, func() { checkC04(c, r) })
+	})
+	registerExtra("C11", func(c *Ctx, r *Report) {
+		r.WithAlias(map[string]string{"C04-R5": "C11-R12"}, func() { checkC04(c, r) })
+	})
 }
 
 // ---------- C12-R10: the translated request is forwarded as the translator produced it ----------
@@ -7667,4 +7675,1180 @@ func extraC20NoAllocByDeclaredLength(c *Ctx, r *Report) {
 	addMutants(Mutant{Prop: "C20", Name: "buffer-grown-to-declared-length", File: "internal/adapter/discovery/http_client.go", Rule: "C20-R16",
 		Old: "	body, err := io.ReadAll(limitedReader)\n", New: "	var sized bytes.Buffer\n	if resp.ContentLength > 0 {\n		sized.Grow(int(resp.ContentLength))\n	}\n	body, err := io.ReadAll(limitedReader)\n",
 		Edits: []Edit{{"internal/adapter/discovery/http_client.go", "import (\n", "import (\n	\"bytes\"\n"}}})
+}
+
+// ---------- C01-R15: between the inbound path and the forwarded path there is only the prefix removal ----------
+func init() { registerExtra("C01", extraC01PathOnlyStripped) }
+
+// pathNormaliser: library calls that rewrite a path beyond removing a prefix.
+func pathNormaliser(ci callInfo) bool {
+	switch ci.Pkg {
+	case "path", "path/filepath":
+		return ci.Recv == "" && (ci.Name == "Clean" || ci.Name == "Join" || ci.Name == "Base" || ci.Name == "Dir")
+	case "strings":
+		switch ci.Name {
+		case "ToLower", "ToUpper", "TrimSuffix", "TrimRight", "TrimLeft", "Trim", "TrimSpace", "TrimFunc", "TrimRightFunc", "TrimLeftFunc", "ReplaceAll", "Replace", "Map", "Title", "ToTitle":
+			return ci.Recv == ""
+		}
+		return ci.Recv == "Replacer" && ci.Name == "Replace"
+	case "net/url":
+		return ci.Recv == "" && (ci.Name == "PathEscape" || ci.Name == "PathUnescape" || ci.Name == "QueryEscape" || ci.Name == "QueryUnescape")
+	}
+	return false
+}
+
+type pathDeriv struct {
+	c     *Ctx
+	seen  map[ssa.Value]bool
+	norms []*ssa.Call // normaliser calls whose argument derives from the inbound path
+}
+
+// walk reports whether v derives from a load of an inbound http.Request's URL.Path; normaliser calls met on such a
+// derivation are collected. ctx is the stack of call sites the walk descended through (to bind parameters).
+func (d *pathDeriv) walk(v ssa.Value, ctx []*ssa.Call, depth int) bool {
+	if v == nil || depth <= 0 {
+		return false
+	}
+	if len(ctx) == 0 {
+		if d.seen[v] {
+			return false
+		}
+		d.seen[v] = true
+	}
+	switch x := v.(type) {
+	case *ssa.Const:
+		return false
+	case *ssa.Parameter:
+		if len(ctx) > 0 {
+			top := ctx[len(ctx)-1]
+			if top.Call.StaticCallee() == x.Parent() {
+				for i, p := range x.Parent().Params {
+					if p == x && i < len(top.Call.Args) {
+						return d.walk(top.Call.Args[i], ctx[:len(ctx)-1], depth-1)
+					}
+				}
+			}
+		}
+		return false
+	case *ssa.Phi:
+		any := false
+		for _, e := range x.Edges {
+			if d.walk(e, ctx, depth-1) {
+				any = true
+			}
+		}
+		return any
+	case *ssa.BinOp:
+		if x.Op != token.ADD {
+			return false
+		}
+		a := d.walk(x.X, ctx, depth-1)
+		b := d.walk(x.Y, ctx, depth-1)
+		return a || b
+	case *ssa.Slice:
+		return d.walk(x.X, ctx, depth-1)
+	case *ssa.Convert:
+		return d.walk(x.X, ctx, depth-1)
+	case *ssa.ChangeType:
+		return d.walk(x.X, ctx, depth-1)
+	case *ssa.Extract:
+		if call, ok := x.Tuple.(*ssa.Call); ok {
+			return d.walkCall(call, x.Index, ctx, depth)
+		}
+		return false
+	case *ssa.Call:
+		return d.walkCall(x, 0, ctx, depth)
+	case *ssa.UnOp:
+		if x.Op != token.MUL {
+			return false
+		}
+		switch a := x.X.(type) {
+		case *ssa.FieldAddr:
+			if isField(a, "net/url", "URL", "Path") {
+				return mentionsField(a.X, "net/http", "Request", "URL", 3)
+			}
+			owner, fld, ok := fieldOf(a)
+			if !ok {
+				return false
+			}
+			n, isN := deref(owner).(*types.Named)
+			if !isN || n.Obj().Pkg() == nil || !strings.HasSuffix(n.Obj().Pkg().Path(), pkgHandlers) {
+				return false
+			}
+			any := false
+			for _, g := range d.c.Funcs {
+				if fnPkgPath(g) != n.Obj().Pkg().Path() {
+					continue
+				}
+				eachInstr(g, func(in ssa.Instruction) {
+					st, ok := in.(*ssa.Store)
+					if !ok {
+						return
+					}
+					if _, f2, ok := fieldOf(st.Addr); ok && f2 == fld {
+						if _, isFA := st.Addr.(*ssa.FieldAddr); isFA && d.walk(st.Val, nil, depth-1) {
+							any = true
+						}
+					}
+				})
+			}
+			return any
+		case *ssa.Alloc:
+			any := false
+			for _, ref := range *a.Referrers() {
+				if st, ok := ref.(*ssa.Store); ok && st.Addr == ssa.Value(a) && d.walk(st.Val, ctx, depth-1) {
+					any = true
+				}
+			}
+			return any
+		}
+	}
+	return false
+}
+
+func (d *pathDeriv) walkCall(call *ssa.Call, idx int, ctx []*ssa.Call, depth int) bool {
+	if call.Call.IsInvoke() {
+		return false
+	}
+	if sc := call.Call.StaticCallee(); sc != nil && sc.Blocks != nil && d.c.inRepo(sc) {
+		any := false
+		for _, rv := range flatResults(sc, idx) {
+			if d.walk(rv, append(append([]*ssa.Call{}, ctx...), call), depth-1) {
+				any = true
+			}
+		}
+		return any
+	}
+	ci := describeCall(&call.Call)
+	any := false
+	for _, a := range call.Call.Args {
+		if b, ok := a.Type().Underlying().(*types.Basic); ok && b.Info()&types.IsString != 0 {
+			if d.walk(a, ctx, depth-1) {
+				any = true
+			}
+		}
+	}
+	if any && pathNormaliser(ci) {
+		d.norms = append(d.norms, call)
+	}
+	return any
+}
+
+func extraC01PathOnlyStripped(c *Ctx, r *Report) {
+	r.Rule("C01-R15", "the path the handlers put on the request before dispatch (a store to the inbound http.Request's URL.Path) differs from the path the client sent only by the removed route prefix: on the derivation from the inbound URL.Path to that store — through the repository's own helpers and the handlers' own request records — there is no call of a normalising library function (path.Clean/Join/Base/Dir, strings.ToLower/ToUpper/Trim*/Replace*/Map, url.PathEscape/Unescape). Such a call changes paths the backend distinguishes (a trailing slash, a doubled slash, letter case, an escaped byte)", 2)
+	n := 0
+	for _, f := range c.Funcs {
+		pp := fnPkgPath(f)
+		if !strings.HasSuffix(pp, pkgHandlers) {
+			continue
+		}
+		eachInstr(f, func(in ssa.Instruction) {
+			st, ok := in.(*ssa.Store)
+			if !ok || !isField(st.Addr, "net/url", "URL", "Path") {
+				return
+			}
+			fa, ok := st.Addr.(*ssa.FieldAddr)
+			if !ok || !mentionsField(fa.X, "net/http", "Request", "URL", 3) {
+				return
+			}
+			d := &pathDeriv{c: c, seen: map[ssa.Value]bool{}}
+			if !d.walk(st.Val, nil, 14) {
+				return // a path the handler chose itself (translator target): not the client's path
+			}
+			n++
+			key := fname(f) + ":URL.Path=stripped(inbound)"
+			if len(d.norms) == 0 {
+				r.OK("C01-R15", key, in.Pos(), "derived from the inbound path by prefix removal only")
+				return
+			}
+			ci := describeCall(&d.norms[0].Call)
+			r.Bad("C01-R15", key, in.Pos(), fmt.Sprintf("the forwarded path is derived from the client's path through %s.%s (at %s): the backend no longer receives the path the client sent with only the route prefix removed", ci.Pkg, ci.Name, c.Pos(d.norms[0].Pos())))
+		})
+	}
+	if n == 0 {
+		r.Triv("C01-R15", "forwarded-path-stores", token.NoPos, "no handler store to URL.Path derives from the inbound path")
+	}
+	addMutants(Mutant{Prop: "C01", Name: "forwarded-path-loses-trailing-slash", File: "internal/app/handlers/handler_proxy.go", Rule: "C01-R15",
+		Old: "	pr.targetPath = a.stripRoutePrefix(ctx, r.URL.Path)\n", New: "	pr.targetPath = strings.TrimSuffix(a.stripRoutePrefix(ctx, r.URL.Path), \"/\")\n",
+		Edits: []Edit{{"internal/app/handlers/handler_proxy.go", "	\"net/http\"\n", "	\"net/http\"\n	\"strings\"\n"}}})
+}
+
+// ---------- C02-R14 / C01-R16: the pool helper hands an object to one borrower only ----------
+func init() {
+	registerExtra("C02", func(c *Ctx, r *Report) { extraPoolExclusiveTake(c, r, "C02-R14") })
+	registerExtra("C01", func(c *Ctx, r *Report) { extraPoolExclusiveTake(c, r, "C01-R16") })
+}
+
+func extraPoolExclusiveTake(c *Ctx, r *Report, rule string) {
+	r.Rule(rule, "every value the repository's own pool type returns from Get was taken from the shared storage exclusively: it is the result of sync.Pool.Get, of an atomic Swap, of a channel receive, of the constructor, of a CompareAndSwap-guarded read, or it is read while a mutex of the pool is held. A value read with an atomic Load (or a plain field/element read without a lock) and then returned can be read by two concurrent Gets, which then stream two responses through one buffer", 1)
+	n := 0
+	seenFn := map[string]bool{}
+	for _, f := range c.Funcs {
+		if !strings.HasSuffix(fnPkgPath(f), "/pkg/pool") || f.Name() != "Get" || f.Signature.Recv() == nil || f.Blocks == nil {
+			continue
+		}
+		key := fname(f)
+		if o := f.Origin(); o != nil {
+			key = fname(o)
+		}
+		if seenFn[key] {
+			continue
+		}
+		seenFn[key] = true
+		locked := false
+		eachInstr(f, func(in ssa.Instruction) {
+			if cc := getCall(in); cc != nil {
+				ci := describeCall(cc)
+				if ci.Pkg == "sync" && (ci.Name == "Lock") {
+					locked = true
+				}
+			}
+		})
+		var bad ssa.Value
+		seen := map[ssa.Value]bool{}
+		var walk func(v ssa.Value, d int)
+		walk = func(v ssa.Value, d int) {
+			if v == nil || d == 0 || seen[v] || bad != nil {
+				return
+			}
+			seen[v] = true
+			switch x := v.(type) {
+			case *ssa.TypeAssert:
+				walk(x.X, d-1)
+			case *ssa.ChangeInterface:
+				walk(x.X, d-1)
+			case *ssa.MakeInterface:
+				walk(x.X, d-1)
+			case *ssa.ChangeType:
+				walk(x.X, d-1)
+			case *ssa.Extract:
+				walk(x.Tuple, d-1)
+			case *ssa.Phi:
+				for _, e := range x.Edges {
+					walk(e, d-1)
+				}
+			case *ssa.UnOp:
+				if x.Op == token.ARROW {
+					return // channel receive: exclusive
+				}
+				if x.Op == token.MUL {
+					switch a := x.X.(type) {
+					case *ssa.Alloc:
+						for _, ref := range *a.Referrers() {
+							if st, ok := ref.(*ssa.Store); ok && st.Addr == ssa.Value(a) {
+								walk(st.Val, d-1)
+							}
+						}
+					case *ssa.FieldAddr, *ssa.IndexAddr:
+						if !locked {
+							bad = x
+						}
+					default:
+						walk(x.X, d-1) // *v where v is itself a taken pointer
+					}
+				}
+			case *ssa.Call:
+				ci := describeCall(&x.Call)
+				if ci.Pkg == "sync/atomic" && ci.Name == "Load" {
+					// exclusive only when the return is reached under a successful CompareAndSwap on the same cell
+					guarded := false
+					for _, ret := range returnsOf(f) {
+						for _, cf := range normFacts(condFacts(ret.Block())) {
+							if call, ok := cf.Cond.(*ssa.Call); ok && cf.True {
+								if cj := describeCall(&call.Call); cj.Pkg == "sync/atomic" && cj.Name == "CompareAndSwap" {
+									guarded = true
+								}
+							}
+						}
+					}
+					if !guarded && !locked {
+						bad = x
+					}
+				}
+				// sync.Pool.Get, Swap, the constructor, anything else: exclusive or fresh
+			}
+		}
+		for _, rv := range flatResults(f, 0) {
+			walk(rv, 12)
+		}
+		n++
+		if bad == nil {
+			r.OK(rule, key+":exclusive-take", f.Pos(), "Get returns only exclusively taken or fresh objects")
+		} else {
+			r.Bad(rule, key+":exclusive-take", bad.Pos(), "Get returns an object it only read from the shared storage (atomic Load / unlocked field read) — two concurrent Gets can both read it before either clears it, so two in-flight responses share one stream buffer and their bytes mix")
+		}
+	}
+	if n == 0 {
+		r.Triv(rule, "pool-get", token.NoPos, "the repository has no pool type of its own")
+	}
+	addMutants(Mutant{Prop: rule[:3], Name: "pool-warm-slot-load-then-clear", File: "pkg/pool/lite_pool.go", Rule: rule,
+		Old: "func (p *Pool[T]) Get() T {\n", New: "func (p *Pool[T]) Get() T {\n	if v := p.warm.Load(); v != nil {\n		p.warm.Store(nil)\n		return *v\n	}\n",
+		Edits: []Edit{{"pkg/pool/lite_pool.go", "	new  func() T\n}", "	new  func() T\n	warm atomic.Pointer[T]\n}"}, {"pkg/pool/lite_pool.go", "	\"sync\"\n", "	\"sync\"\n	\"sync/atomic\"\n"}}})
+}
+
+// ---------- C03-R18 / C07-R17: the request path writes an endpoint's status back only to take it out of rotation ----------
+func init() {
+	registerExtra("C03", func(c *Ctx, r *Report) { extraRequestPathStatusWrites(c, r, "C03-R18") })
+	registerExtra("C07", func(c *Ctx, r *Report) { extraRequestPathStatusWrites(c, r, "C07-R17") })
+}
+
+func extraRequestPathStatusWrites(c *Ctx, r *Report, rule string) {
+	r.Rule(rule, "every endpoint record the proxy engines and the retry handler hand to DiscoveryService.UpdateEndpointStatus has had its Status set, in the same function and before the call, to a constant for which IsRoutable() is false. The record is a copy of the snapshot taken when the request arrived; writing it back with the status it had then (a 'latency update', a 'touch') overwrites whatever the health checker or another request's failure recorded in the meantime and makes an endpoint routable again with no passing health check", 1)
+	ir := c.Fn(pkgDomain, "EndpointStatus.IsRoutable")
+	nonRoutable := func(v ssa.Value) bool {
+		s, ok := constString(v)
+		if !ok || ir == nil {
+			return false
+		}
+		rv := evalOnConstString(ir, s)
+		k, isK := rv.(*ssa.Const)
+		return isK && k.Value != nil && k.Value.Kind() == constant.Bool && !constant.BoolVal(k.Value)
+	}
+	type site struct {
+		f    *ssa.Function
+		in   ssa.Instruction
+		v    ssa.Value
+		path string
+	}
+	n := 0
+	var check func(s site, depth int)
+	check = func(s site, depth int) {
+		v := s.v
+		for {
+			switch x := v.(type) {
+			case *ssa.ChangeType:
+				v = x.X
+				continue
+			case *ssa.Phi:
+				for _, e := range x.Edges {
+					check(site{s.f, s.in, e, s.path}, depth)
+				}
+				return
+			}
+			break
+		}
+		if p, ok := v.(*ssa.Parameter); ok && depth > 0 {
+			idx := -1
+			for i, q := range s.f.Params {
+				if q == p {
+					idx = i
+				}
+			}
+			found := false
+			for _, g := range c.Funcs {
+				eachInstr(g, func(in ssa.Instruction) {
+					cc := getCall(in)
+					if cc == nil || cc.StaticCallee() != s.f || idx >= len(cc.Args) {
+						return
+					}
+					found = true
+					check(site{g, in, cc.Args[idx], s.path + "←" + cshort(g)}, depth-1)
+				})
+			}
+			if found {
+				return
+			}
+		}
+		n++
+		key := fname(s.f) + ":status-write-back"
+		ok := false
+		eachInstr(s.f, func(in ssa.Instruction) {
+			st, isSt := in.(*ssa.Store)
+			if !isSt || !isField(st.Addr, pkgDomain, "Endpoint", "Status") {
+				return
+			}
+			fa, isFA := st.Addr.(*ssa.FieldAddr)
+			if !isFA || fa.X != v || !nonRoutable(st.Val) {
+				return
+			}
+			if instrDominates(in, s.in) {
+				ok = true
+			}
+		})
+		if ok {
+			r.OK(rule, key, s.in.Pos(), "the record written back carries a non-routable status set just before")
+		} else {
+			r.Bad(rule, key, s.in.Pos(), "an endpoint record is written back through UpdateEndpointStatus"+s.path+" with the status of the request's snapshot: a request that was in flight while the endpoint was marked down makes it routable again when it completes, without any health check")
+		}
+	}
+	for _, f := range c.Funcs {
+		if !strings.Contains(fnPkgPath(f), "/adapter/proxy") {
+			continue
+		}
+		eachInstr(f, func(in ssa.Instruction) {
+			cc := getCall(in)
+			if cc == nil || !cc.IsInvoke() || cc.Method.Name() != "UpdateEndpointStatus" || len(cc.Args) < 2 {
+				return
+			}
+			check(site{f, in, cc.Args[1], ""}, 4)
+		})
+	}
+	if n == 0 {
+		r.Triv(rule, "request-path-status-writes", token.NoPos, "the proxy packages never call UpdateEndpointStatus")
+	}
+	addMutants(Mutant{Prop: rule[:3], Name: "success-writes-snapshot-back", File: "internal/adapter/proxy/core/retry.go", Rule: rule,
+		Old: "		if lastErr == nil {\n			return nil\n", New: "		if lastErr == nil {\n			touched := *endpoint\n			touched.LastChecked = time.Now()\n			h.updateEndpointStatus(ctx, &touched)\n			return nil\n"})
+}
+
+// ---------- C04-R15 / C03-R20 / C07-R18: the forwarding layers between the retry handler and the repository drop no status mark ----------
+func init() {
+	registerExtra("C04", func(c *Ctx, r *Report) { extraStatusForwardersDeliver(c, r, "C04-R15") })
+	registerExtra("C03", func(c *Ctx, r *Report) { extraStatusForwardersDeliver(c, r, "C03-R20") })
+	registerExtra("C07", func(c *Ctx, r *Report) { extraStatusForwardersDeliver(c, r, "C07-R18") })
+}
+
+func extraStatusForwardersDeliver(c *Ctx, r *Report, rule string) {
+	r.Rule(rule, "every UpdateEndpointStatus method of the repository's wiring (the adapters and services between the retry handler / health checker and StaticEndpointRepository.UpdateEndpoint) answers nil only after it has forwarded the record to the next UpdateEndpointStatus / UpdateEndpoint, except where the next layer does not exist (a failed type assertion on it): a layer that answers nil without forwarding — because the endpoint is 'the last routable one', because nothing 'changed', for any reason taken from the record or the repository's content — silently drops the offline mark of a failed attempt, and the retry handler takes nil for 'recorded'", 3)
+	isForward := func(in ssa.Instruction) bool {
+		cc := getCall(in)
+		if cc == nil {
+			return false
+		}
+		name := ""
+		if cc.IsInvoke() {
+			name = cc.Method.Name()
+		} else if sc := cc.StaticCallee(); sc != nil {
+			name = sc.Name()
+		}
+		return name == "UpdateEndpointStatus" || name == "UpdateEndpoint"
+	}
+	n := 0
+	for _, f := range c.Funcs {
+		if !c.inRepo(f) || f.Parent() != nil || f.Signature.Recv() == nil || f.Name() != "UpdateEndpointStatus" || f.Blocks == nil {
+			continue
+		}
+		forwards := false
+		eachInstr(f, func(in ssa.Instruction) {
+			if isForward(in) {
+				forwards = true
+			}
+		})
+		if !forwards {
+			continue
+		}
+		n++
+		key := fname(f) + ":nil-only-after-forwarding"
+		var bad *ssa.Return
+		for _, vr := range virtualReturns(f, f.Signature.Results().Len()-1) {
+			if !isNilConst(vr.Val) || !reachFromEntryAvoiding(f, vr.At, isForward) {
+				continue
+			}
+			noNext := false
+			for _, cf := range normFacts(append(condFacts(vr.At.Block()), vr.Facts...)) {
+				if ex, ok := cf.Cond.(*ssa.Extract); ok && ex.Index == 1 && !cf.True {
+					if _, isTA := ex.Tuple.(*ssa.TypeAssert); isTA {
+						noNext = true
+					}
+				}
+			}
+			if !noNext {
+				bad = vr.Ret
+			}
+		}
+		if bad != nil {
+			r.Bad(rule, key, bad.Pos(), "this layer can answer nil without forwarding the status record: the offline mark of a failed attempt (or a health-check result) is dropped here while its writer believes it was recorded — the endpoint stays in rotation")
+		} else {
+			r.OK(rule, key, f.Pos(), "nil is answered only after forwarding (or when there is no next layer)")
+		}
+	}
+	if n == 0 {
+		r.Undecided(rule, "status-forwarders", token.NoPos, "no forwarding UpdateEndpointStatus method found")
+	}
+	addMutants(Mutant{Prop: rule[:3], Name: "adapter-keeps-last-endpoint", File: "internal/app/services/proxy.go", Rule: rule,
+		Old: "	// Update endpoint status in repository\n	return a.repo.UpdateEndpoint(ctx, endpoint)\n", New: "	if healthy, err := a.repo.GetHealthy(ctx); err == nil && len(healthy) <= 1 {\n		return nil\n	}\n	return a.repo.UpdateEndpoint(ctx, endpoint)\n"})
+}
+
+// ---------- C05-R13: a recovered panic is not reported as success ----------
+func init() { registerExtra("C05", extraC05RecoverSetsError) }
+
+func extraC05RecoverSetsError(c *Ctx, r *Report) {
+	r.Rule("C05-R13", "every function of the request path (proxy engines, retry handler, handlers) that returns an error and defers a function calling recover() makes the recovered case visible to its caller: the deferred function (or a helper it hands the address to) stores into the function's error result, or panics again. A deferred recover that only logs lets the function return its zero results — a nil error — so the retry loop and the handler take an attempt that blew up for a served request and the client receives an empty 200", 1)
+	n := 0
+	storesErr := func(g *ssa.Function) bool {
+		found := false
+		var look func(h *ssa.Function, d int)
+		look = func(h *ssa.Function, d int) {
+			if h == nil || h.Blocks == nil || d == 0 || found {
+				return
+			}
+			eachInstr(h, func(in ssa.Instruction) {
+				switch x := in.(type) {
+				case *ssa.Panic:
+					found = true
+				case *ssa.Store:
+					if pt, ok := x.Addr.Type().Underlying().(*types.Pointer); ok && types.Identical(pt.Elem(), types.Universe.Lookup("error").Type()) {
+						if _, isAlloc := x.Addr.(*ssa.Alloc); !isAlloc { // a local of the deferred function itself is not the caller's result
+							found = true
+						}
+					}
+				}
+				if cc := getCall(in); cc != nil {
+					if sc := cc.StaticCallee(); sc != nil && c.inRepo(sc) {
+						look(sc, d-1)
+					}
+				}
+			})
+		}
+		look(g, 3)
+		return found
+	}
+	callsRecover := func(g *ssa.Function) bool {
+		found := false
+		eachInstr(g, func(in ssa.Instruction) {
+			if call, ok := in.(*ssa.Call); ok {
+				if b, ok := call.Call.Value.(*ssa.Builtin); ok && b.Name() == "recover" {
+					found = true
+				}
+			}
+		})
+		return found
+	}
+	for _, f := range c.Funcs {
+		pp := fnPkgPath(f)
+		if !strings.Contains(pp, "/adapter/proxy") && !strings.HasSuffix(pp, pkgHandlers) {
+			continue
+		}
+		res := f.Signature.Results()
+		if f.Blocks == nil || res.Len() == 0 || !types.Identical(res.At(res.Len()-1).Type(), types.Universe.Lookup("error").Type()) {
+			continue
+		}
+		eachInstr(f, func(in ssa.Instruction) {
+			d, ok := in.(*ssa.Defer)
+			if !ok {
+				return
+			}
+			var g *ssa.Function
+			if mc, ok := d.Call.Value.(*ssa.MakeClosure); ok {
+				g, _ = mc.Fn.(*ssa.Function)
+			} else {
+				g = d.Call.StaticCallee()
+			}
+			if g == nil || g.Blocks == nil || !callsRecover(g) {
+				return
+			}
+			n++
+			key := fname(f) + ":recover-reports-failure"
+			if storesErr(g) {
+				r.OK("C05-R13", key, in.Pos(), "the recovered case sets the error result or panics again")
+			} else {
+				r.Bad("C05-R13", key, in.Pos(), "the deferred recover() neither sets the function's error result nor panics again: after a panic in the attempt the function returns a nil error, the request counts as served and the client gets an empty success answer")
+			}
+		})
+	}
+	if n == 0 {
+		r.Triv("C05-R13", "recovering-error-functions", token.NoPos, "no error-returning function of the request path recovers panics")
+	}
+	addMutants(Mutant{Prop: "C05", Name: "engine-recover-only-logs", File: "internal/adapter/proxy/olla/service.go", Rule: "C05-R13",
+		Old: "			s.handlePanic(ctx, w, r, stats, rlog, rec, &err)\n", New: "			rlog.Error(\"proxy request panicked\", \"panic\", rec)\n"})
+}
+
+// ---------- C05-R14: what the handlers take for "a response has started" is only ever set on the way to a commit ----------
+func init() { registerExtra("C05", extraC05StartedTestSound) }
+
+func extraC05StartedTestSound(c *Ctx, r *Report) {
+	r.Rule("C05-R14", "the handlers (and the engine's panic handler) decide whether they may still write an error answer by testing a response header for emptiness (w.Header().Get(K) == \"\"). For every such K: wherever the proxy packages set K on the client's response (Header.Set/Add with that key, a store into the header map, the copy of the backend's headers — whose keys are arbitrary — or a helper doing one of these), every path from there to a return with a non-nil error passes a commit of the response (WriteHeader / Write / http.Error). A path that sets K and then fails without committing makes the handler believe an answer is under way: it writes nothing and the client receives an empty 200", 3)
+	isRW := func(t types.Type) bool { return isNamed(t, "net/http", "ResponseWriter") }
+	fromRWHeader := func(h ssa.Value) bool {
+		for d := 0; d < 4 && h != nil; d++ {
+			switch x := h.(type) {
+			case *ssa.Call:
+				return x.Call.IsInvoke() && x.Call.Method.Name() == "Header" && isRW(x.Call.Value.Type())
+			case *ssa.ChangeType:
+				h = x.X
+			case *ssa.Phi:
+				if len(x.Edges) == 0 {
+					return false
+				}
+				h = x.Edges[0]
+			default:
+				return false
+			}
+		}
+		return false
+	}
+	canon := func(s string) string { return strings.ToLower(s) }
+	// 1. the keys tested
+	keys := map[string]string{}
+	for _, f := range c.Funcs {
+		pp := fnPkgPath(f)
+		if !strings.HasSuffix(pp, pkgHandlers) && !strings.Contains(pp, "/adapter/proxy") {
+			continue
+		}
+		eachInstr(f, func(in ssa.Instruction) {
+			bo, ok := in.(*ssa.BinOp)
+			if !ok || (bo.Op != token.EQL && bo.Op != token.NEQ) {
+				return
+			}
+			for _, pr := range [][2]ssa.Value{{bo.X, bo.Y}, {bo.Y, bo.X}} {
+				if s, ok := constString(pr[1]); !ok || s != "" {
+					continue
+				}
+				call, ok := pr[0].(*ssa.Call)
+				if !ok {
+					continue
+				}
+				h, k, _, ok := headerCall(call, "Get")
+				if !ok || !fromRWHeader(h) {
+					continue
+				}
+				if ks, ok := constString(k); ok {
+					keys[canon(ks)] = c.Pos(in.Pos())
+				}
+			}
+		})
+	}
+	if len(keys) == 0 {
+		r.Triv("C05-R14", "started-tests", token.NoPos, "no function tests a response header to decide whether an answer has started")
+		return
+	}
+	// 2. summaries: which keys does a function set on a ResponseWriter it receives ("*" = arbitrary keys)
+	memo := map[*ssa.Function]map[string]bool{}
+	var setsOf func(g *ssa.Function, d int) map[string]bool
+	siteKeys := func(in ssa.Instruction, d int) map[string]bool {
+		out := map[string]bool{}
+		if h, k, _, ok := headerCall(in, "Set", "Add"); ok && fromRWHeader(h) {
+			if ks, ok := constString(k); ok {
+				out[canon(ks)] = true
+			} else {
+				out["*"] = true
+			}
+		}
+		if mu, ok := in.(*ssa.MapUpdate); ok && fromRWHeader(mu.Map) {
+			if ks, ok := constString(mu.Key); ok {
+				out[canon(ks)] = true
+			} else {
+				out["*"] = true
+			}
+		}
+		if cc := getCall(in); cc != nil && d > 0 {
+			if sc := cc.StaticCallee(); sc != nil && c.inRepo(sc) && sc.Blocks != nil {
+				passes := false
+				for _, a := range cc.Args {
+					if isRW(a.Type()) {
+						passes = true
+					}
+				}
+				if passes {
+					for k := range setsOf(sc, d-1) {
+						out[k] = true
+					}
+				}
+			}
+		}
+		return out
+	}
+	setsOf = func(g *ssa.Function, d int) map[string]bool {
+		if m, ok := memo[g]; ok {
+			return m
+		}
+		m := map[string]bool{}
+		memo[g] = m
+		eachInstr(g, func(in ssa.Instruction) {
+			for k := range siteKeys(in, d) {
+				m[k] = true
+			}
+		})
+		return m
+	}
+	commitMemo := map[*ssa.Function]bool{}
+	var commits func(g *ssa.Function, d int) bool
+	isCommit := func(in ssa.Instruction) bool {
+		cc := getCall(in)
+		if cc == nil {
+			return false
+		}
+		if cc.IsInvoke() {
+			return isRW(cc.Value.Type()) && (cc.Method.Name() == "WriteHeader" || cc.Method.Name() == "Write")
+		}
+		ci := describeCall(cc)
+		if ci.Pkg == "net/http" && ci.Recv == "" && (ci.Name == "Error" || ci.Name == "NotFound" || ci.Name == "Redirect") {
+			return true
+		}
+		if sc := cc.StaticCallee(); sc != nil && c.inRepo(sc) && sc.Blocks != nil {
+			for _, a := range cc.Args {
+				if isRW(a.Type()) {
+					return commits(sc, 3)
+				}
+			}
+		}
+		return false
+	}
+	commits = func(g *ssa.Function, d int) bool {
+		if v, ok := commitMemo[g]; ok {
+			return v
+		}
+		commitMemo[g] = false
+		if d == 0 {
+			return false
+		}
+		found := false
+		eachInstr(g, func(in ssa.Instruction) {
+			if !found && isCommit(in) {
+				found = true
+			}
+		})
+		commitMemo[g] = found
+		return found
+	}
+	n := 0
+	for _, f := range c.Funcs {
+		if !strings.Contains(fnPkgPath(f), "/adapter/proxy") || f.Blocks == nil {
+			continue
+		}
+		res := f.Signature.Results()
+		if res.Len() == 0 || !types.Identical(res.At(res.Len()-1).Type(), types.Universe.Lookup("error").Type()) {
+			continue
+		}
+		eachInstr(f, func(in ssa.Instruction) {
+			sk := siteKeys(in, 3)
+			var hitKey string
+			for _, k := range sortedKeys(keys) {
+				if sk[k] || sk["*"] {
+					hitKey = k
+					break
+				}
+			}
+			if hitKey == "" || isCommit(in) {
+				return // a callee that sets and commits is examined at its own sites
+			}
+			n++
+			key := fmt.Sprintf("%s:sets-%s-then-commits", fname(f), hitKey)
+			bad := token.NoPos
+			for _, vr := range virtualReturns(f, res.Len()-1) {
+				if isNilConst(vr.Val) {
+					continue
+				}
+				if in != vr.At && !reachAvoiding(in, vr.At, isCommit) {
+					continue
+				}
+				if vr.At != ssa.Instruction(vr.Ret) && !reachAvoiding(vr.At, vr.Ret, isCommit) {
+					continue
+				}
+				bad = retPos(f, vr.Ret)
+			}
+			if bad.IsValid() {
+				r.Bad("C05-R14", key, in.Pos(), fmt.Sprintf("header %q — which the test at %s takes as the sign that an answer has started — is set on the client's response here, and the function can then return an error (at %s) without committing anything: the handler writes no error answer and the client receives an empty 200", hitKey, keys[hitKey], c.Pos(bad)))
+			} else {
+				r.OK("C05-R14", key, in.Pos(), "every failing path after this header write has committed the response")
+			}
+		})
+	}
+	if n == 0 {
+		r.Triv("C05-R14", "sets-of-tested-headers", token.NoPos, "the proxy packages never set a header the handlers test")
+	}
+	addMutants(Mutant{Prop: "C05", Name: "content-type-set-before-circuit-open-return", File: "internal/adapter/proxy/olla/service_retry.go", Rule: "C05-R14",
+		Old: "		return fmt.Errorf(\"%w for endpoint %s\", core.ErrCircuitOpen, endpoint.Name)\n", New: "		w.Header().Set(\"Content-Type\", \"application/json\")\n		return fmt.Errorf(\"%w for endpoint %s\", core.ErrCircuitOpen, endpoint.Name)\n"})
+}
+
+// ---------- C07-R19: the delay to the next check is clamped after the multiplication ----------
+func init() { registerExtra("C07", extraC07DelayClamped) }
+
+func extraC07DelayClamped(c *Ctx, r *Report) {
+	r.Rule("C07-R19", "every duration that is added to 'now' to become an endpoint's NextCheckTime (health checker after a probe, retry handler after a failed attempt) is, on every path, the endpoint's plain CheckInterval, a constant, or a value clamped by a constant AFTER it was computed — min(x, K), or the join of K with x under the fact x <= K. A product check_interval x multiplier that reaches the store unclamped (for instance because the cap was applied to a factor instead of the product) lets the delay grow past the 60 s cap: 30 s x 12 = 6 min between probes of a dead endpoint, so 'becomes routable on the first probe that succeeds' is delayed far beyond the promised bound", 2)
+	var bounded func(v ssa.Value, d int) bool
+	bounded = func(v ssa.Value, d int) bool {
+		if v == nil || d == 0 {
+			return false
+		}
+		switch x := v.(type) {
+		case *ssa.Const:
+			return true
+		case *ssa.ChangeType:
+			return bounded(x.X, d-1)
+		case *ssa.UnOp:
+			if x.Op == token.MUL {
+				if fa, ok := x.X.(*ssa.FieldAddr); ok {
+					if _, fld, ok := fieldOf(fa); ok && fld.Name() == "CheckInterval" {
+						return true
+					}
+				}
+				if al, ok := x.X.(*ssa.Alloc); ok {
+					all, any := true, false
+					for _, ref := range *al.Referrers() {
+						if st, ok := ref.(*ssa.Store); ok && st.Addr == ssa.Value(al) {
+							any = true
+							if !bounded(st.Val, d-1) {
+								all = false
+							}
+						}
+					}
+					return any && all
+				}
+			}
+			return false
+		case *ssa.Field:
+			return x.X.Type().Underlying().(*types.Struct).Field(x.Field).Name() == "CheckInterval"
+		case *ssa.Call:
+			if b, ok := x.Call.Value.(*ssa.Builtin); ok && b.Name() == "min" {
+				for _, a := range x.Call.Args {
+					if _, isK := a.(*ssa.Const); isK {
+						return true
+					}
+				}
+				for _, a := range x.Call.Args {
+					if !bounded(a, d-1) {
+						return false
+					}
+				}
+				return true
+			}
+			if sc := x.Call.StaticCallee(); sc != nil && c.inRepo(sc) && sc.Blocks != nil && sc.Signature.Results().Len() == 1 {
+				for _, ret := range returnsOf(sc) {
+					if !bounded(retResult(ret, 0), d-1) {
+						return false
+					}
+				}
+				return true
+			}
+			return false
+		case *ssa.Extract:
+			if call, ok := x.Tuple.(*ssa.Call); ok {
+				if sc := call.Call.StaticCallee(); sc != nil && c.inRepo(sc) && sc.Blocks != nil {
+					for _, ret := range returnsOf(sc) {
+						if !bounded(retResult(ret, x.Index), d-1) {
+							return false
+						}
+					}
+					return true
+				}
+			}
+			return false
+		case *ssa.Phi:
+			for i, e := range x.Edges {
+				if bounded(e, d-1) {
+					continue
+				}
+				ok := false
+				if i < len(x.Block().Preds) {
+					facts := append(edgeFacts(x.Block().Preds[i], x.Block()), condFacts(x.Block().Preds[i])...)
+					for _, cf := range normFacts(facts) {
+						bo, isB := cf.Cond.(*ssa.BinOp)
+						if !isB {
+							continue
+						}
+						_, ky := bo.Y.(*ssa.Const)
+						_, kx := bo.X.(*ssa.Const)
+						switch {
+						case bo.X == e && ky:
+							ok = ok || ((bo.Op == token.GTR || bo.Op == token.GEQ) && !cf.True) || ((bo.Op == token.LEQ || bo.Op == token.LSS) && cf.True)
+						case bo.Y == e && kx:
+							ok = ok || ((bo.Op == token.LSS || bo.Op == token.LEQ) && !cf.True) || ((bo.Op == token.GEQ || bo.Op == token.GTR) && cf.True)
+						}
+					}
+				}
+				if !ok {
+					return false
+				}
+			}
+			return true
+		}
+		return false
+	}
+	n := 0
+	for _, f := range c.Funcs {
+		pp := fnPkgPath(f)
+		if !strings.HasSuffix(pp, "/adapter/health") && !strings.Contains(pp, "/adapter/proxy") {
+			continue
+		}
+		eachInstr(f, func(in ssa.Instruction) {
+			st, ok := in.(*ssa.Store)
+			if !ok || !isField(st.Addr, pkgDomain, "Endpoint", "NextCheckTime") {
+				return
+			}
+			call, ok := st.Val.(*ssa.Call)
+			if !ok {
+				return
+			}
+			ci := describeCall(&call.Call)
+			if ci.Pkg != "time" || ci.Recv != "Time" || ci.Name != "Add" || len(call.Call.Args) != 2 {
+				return
+			}
+			n++
+			key := fname(f) + ":next-check-delay-clamped"
+			if bounded(call.Call.Args[1], 10) {
+				r.OK("C07-R19", key, in.Pos(), "the delay is the plain interval, a constant, or clamped after it was computed")
+			} else {
+				r.Bad("C07-R19", key, in.Pos(), "the delay to the next health check can reach this store without a clamp applied to the computed value (interval x multiplier): it is not bounded by the back-off cap, so a failing endpoint is probed — and can recover — only after minutes instead of at most 60 s")
+			}
+		})
+	}
+	if n == 0 {
+		r.Undecided("C07-R19", "next-check-stores", token.NoPos, "no store of now.Add(delay) into Endpoint.NextCheckTime found in the health checker / retry handler")
+	}
+	addMutants(Mutant{Prop: "C07", Name: "backoff-cap-applied-to-factor", File: "internal/adapter/health/client.go", Rule: "C07-R19",
+		Old: "	backoffInterval := endpoint.CheckInterval * time.Duration(endpoint.BackoffMultiplier)\n	if backoffInterval > MaxBackoffSeconds {\n		backoffInterval = MaxBackoffSeconds\n	}\n",
+		New: "	base := endpoint.CheckInterval\n	if base > MaxBackoffSeconds {\n		base = MaxBackoffSeconds\n	}\n	backoffInterval := base * time.Duration(endpoint.BackoffMultiplier)\n"})
+}
+
+// ---------- C10-R16 / C09-R15 and C10-R17 / C09-R16: every stored listing is unified, from the current listing ----------
+func init() {
+	registerExtra("C10", func(c *Ctx, r *Report) { extraUnifyFromCurrent(c, r, "C10-R16", "C10-R17") })
+	registerExtra("C09", func(c *Ctx, r *Report) { extraUnifyFromCurrent(c, r, "C09-R15", "C09-R16") })
+}
+
+func extraUnifyFromCurrent(c *Ctx, r *Report, ruleA, ruleB string) {
+	r.Rule(ruleA, "the background unification run (the registry function that hands a listing to ModelUnifier.UnifyModels and is started with `go`) works from the endpoint's CURRENT listing: the listing it was started with reaches UnifyModels only on the path where re-reading the endpoint's listing failed (err != nil). Runs of one endpoint are not ordered; a run that keeps its start-time snapshot under any other condition (the current listing is empty, is shorter, …) lets a late run for an older listing re-attribute models the endpoint has since dropped", 1)
+	r.Rule(ruleB, "every path of the unified registry's RegisterModels that stored the listing in the base registry and answers nil has started a unification run for it — or skipped the start only because a run is already pending (a LoadOrStore/CompareAndSwap/Swap flag) whose flag that run clears BEFORE it re-reads the endpoint's listing and not in a defer: a listing that arrives while a run is past its read would otherwise never be unified, and the unified catalogue keeps the previous attribution", 1)
+	const owner = "UnifiedMemoryModelRegistry"
+	isReread := func(in ssa.Instruction) bool {
+		cc := getCall(in)
+		if cc == nil {
+			return false
+		}
+		ci := describeCall(cc)
+		return ci.Name == "GetModelsForEndpoint"
+	}
+	var unifyFns []*ssa.Function
+	for _, f := range c.Funcs {
+		if f.Parent() != nil || !strings.HasSuffix(fnPkgPath(f), pkgRegistry) || f.Signature.Recv() == nil || !isNamed(f.Signature.Recv().Type(), pkgRegistry, owner) {
+			continue
+		}
+		has := false
+		eachInstr(f, func(in ssa.Instruction) {
+			if cc := getCall(in); cc != nil && cc.IsInvoke() && cc.Method.Name() == "UnifyModels" {
+				has = true
+			}
+		})
+		if has {
+			unifyFns = append(unifyFns, f)
+		}
+	}
+	if len(unifyFns) == 0 {
+		r.Unresolved(ruleA, "the unified registry's function calling ModelUnifier.UnifyModels")
+		r.Unresolved(ruleB, "the unified registry's function calling ModelUnifier.UnifyModels")
+		return
+	}
+	isUnify := map[*ssa.Function]bool{}
+	for _, f := range unifyFns {
+		isUnify[f] = true
+	}
+	// --- rule A ---
+	async := map[*ssa.Function]bool{}
+	for _, f := range c.Funcs {
+		eachInstr(f, func(in ssa.Instruction) {
+			if g, ok := in.(*ssa.Go); ok {
+				if sc := g.Call.StaticCallee(); sc != nil && isUnify[sc] {
+					async[sc] = true
+				}
+			}
+		})
+	}
+	for _, f := range unifyFns {
+		key := fname(f) + ":unifies-current-listing"
+		if !async[f] {
+			r.Triv(ruleA, key, f.Pos(), "the unification run is not started with `go`: it runs in the order of the registrations")
+			continue
+		}
+		var listParam *ssa.Parameter
+		for _, p := range f.Params {
+			if sl, ok := p.Type().Underlying().(*types.Slice); ok && isNamed(deref(sl.Elem()), pkgDomain, "ModelInfo") {
+				listParam = p
+			}
+		}
+		if listParam == nil {
+			r.Triv(ruleA, key, f.Pos(), "the run is not handed a listing: it can only read the current one")
+			continue
+		}
+		bad := ""
+		var check func(v ssa.Value, facts []condFact, d int)
+		check = func(v ssa.Value, facts []condFact, d int) {
+			if d == 0 || bad != "" {
+				return
+			}
+			switch x := v.(type) {
+			case *ssa.Phi:
+				for i, e := range x.Edges {
+					if i < len(x.Block().Preds) {
+						check(e, edgeFacts(x.Block().Preds[i], x.Block()), d-1)
+					}
+				}
+			case *ssa.Parameter:
+				if x != listParam {
+					return
+				}
+				failed := false
+				for _, cf := range normFacts(facts) {
+					bo, ok := cf.Cond.(*ssa.BinOp)
+					if !ok || (bo.Op != token.EQL && bo.Op != token.NEQ) {
+						continue
+					}
+					for _, pr := range [][2]ssa.Value{{bo.X, bo.Y}, {bo.Y, bo.X}} {
+						ex, isEx := pr[0].(*ssa.Extract)
+						if !isEx || !isNilConst(pr[1]) {
+							continue
+						}
+						if call, ok := ex.Tuple.(*ssa.Call); ok && isReread(call) {
+							if (bo.Op == token.NEQ) == cf.True {
+								failed = true
+							}
+						}
+					}
+				}
+				if !failed {
+					bad = "the listing the run was started with reaches UnifyModels on a path where the re-read of the endpoint's current listing did not fail"
+				}
+			}
+		}
+		n := 0
+		eachInstr(f, func(in ssa.Instruction) {
+			cc := getCall(in)
+			if cc == nil || !cc.IsInvoke() || cc.Method.Name() != "UnifyModels" {
+				return
+			}
+			for _, a := range cc.Args {
+				if sl, ok := a.Type().Underlying().(*types.Slice); ok && isNamed(deref(sl.Elem()), pkgDomain, "ModelInfo") {
+					n++
+					check(a, condFacts(in.Block()), 6)
+				}
+			}
+		})
+		if bad != "" {
+			r.Bad(ruleA, key, f.Pos(), bad+": a late run for an older listing undoes a newer (for instance empty) one — models the endpoint no longer lists are attributed to it again")
+		} else if n > 0 {
+			r.OK(ruleA, key, f.Pos(), "the start-time snapshot is used only when the current listing cannot be read")
+		}
+	}
+	// --- rule B ---
+	nB := 0
+	for _, f := range c.Funcs {
+		if f.Parent() != nil || !strings.HasSuffix(fnPkgPath(f), pkgRegistry) || f.Signature.Recv() == nil || !isNamed(f.Signature.Recv().Type(), pkgRegistry, owner) {
+			continue
+		}
+		var base ssa.Instruction
+		var starts []ssa.Instruction
+		eachInstr(f, func(in ssa.Instruction) {
+			cc := getCall(in)
+			if cc == nil {
+				return
+			}
+			if sc := cc.StaticCallee(); sc != nil {
+				if isUnify[sc] {
+					starts = append(starts, in)
+				}
+				if sc.Name() == "RegisterModels" && sc.Signature.Recv() != nil && isNamed(sc.Signature.Recv().Type(), pkgRegistry, "MemoryModelRegistry") {
+					base = in
+				}
+			}
+		})
+		if base == nil || len(starts) == 0 {
+			continue
+		}
+		nB++
+		key := fname(f) + ":every-listing-unified"
+		isStart := func(in ssa.Instruction) bool {
+			for _, s := range starts {
+				if s == in {
+					return true
+				}
+			}
+			return false
+		}
+		var skipping *ssa.Return
+		for _, vr := range virtualReturns(f, f.Signature.Results().Len()-1) {
+			if !isNilConst(vr.Val) {
+				continue
+			}
+			if reachAvoiding(base, vr.At, isStart) || (vr.At != ssa.Instruction(vr.Ret) && instrDominates(base, vr.At) && reachAvoiding(vr.At, vr.Ret, isStart) && !instrReaches(starts, vr.At)) {
+				skipping = vr.Ret
+			}
+		}
+		if skipping == nil {
+			r.OK(ruleB, key, starts[0].Pos(), "every successful registration starts a unification run")
+			continue
+		}
+		// the skip is acceptable only as a pending-run flag that the run clears before its re-read
+		var flagField *types.Var
+		for _, cf := range normFacts(condFacts(starts[0].Block())) {
+			v := cf.Cond
+			if ex, ok := v.(*ssa.Extract); ok {
+				v = ex.Tuple
+			}
+			call, ok := v.(*ssa.Call)
+			if !ok || len(call.Call.Args) == 0 {
+				continue
+			}
+			ci := describeCall(&call.Call)
+			if ci.Name != "LoadOrStore" && ci.Name != "CompareAndSwap" && ci.Name != "Swap" {
+				continue
+			}
+			recv := call.Call.Args[0]
+			for d := 0; d < 3 && recv != nil; d++ {
+				if fa, ok := recv.(*ssa.FieldAddr); ok {
+					_, flagField, _ = fieldOf(fa)
+					break
+				}
+				if u, ok := recv.(*ssa.UnOp); ok {
+					recv = u.X
+				} else {
+					break
+				}
+			}
+		}
+		cleared := false
+		if flagField != nil {
+			for uf := range isUnify {
+				var reread ssa.Instruction
+				eachInstr(uf, func(in ssa.Instruction) {
+					if _, isCall := in.(*ssa.Call); isCall && isReread(in) && reread == nil {
+						reread = in
+					}
+				})
+				eachInstr(uf, func(in ssa.Instruction) {
+					call, ok := in.(*ssa.Call) // a deferred clear runs after the read: not accepted
+					if !ok || len(call.Call.Args) == 0 || reread == nil {
+						return
+					}
+					ci := describeCall(&call.Call)
+					if ci.Name != "Delete" && ci.Name != "Store" && ci.Name != "Swap" && ci.Name != "CompareAndSwap" && ci.Name != "LoadAndDelete" {
+						return
+					}
+					recv := call.Call.Args[0]
+					for d := 0; d < 3 && recv != nil; d++ {
+						if fa, ok := recv.(*ssa.FieldAddr); ok {
+							if _, fld, _ := fieldOf(fa); fld == flagField && instrDominates(in, reread) {
+								cleared = true
+							}
+							break
+						}
+						if u, ok := recv.(*ssa.UnOp); ok {
+							recv = u.X
+						} else {
+							break
+						}
+					}
+				})
+			}
+		}
+		if cleared {
+			r.OK(ruleB, key, starts[0].Pos(), "a run is skipped only while one is pending, and the pending flag is cleared before that run reads the listing")
+		} else {
+			r.Bad(ruleB, key, skipping.Pos(), "RegisterModels can store a listing and answer nil without starting a unification run for it (and not under a pending-run flag that the run clears before it reads the listing): that listing is never unified — the unified catalogue and the model→endpoints lookup keep the previous attribution")
+		}
+	}
+	if nB == 0 {
+		r.Undecided(ruleB, "unified-register", token.NoPos, "no function of the unified registry both stores a listing in the base registry and starts the unification run")
+	}
+	addMutants(
+		Mutant{Prop: ruleA[:3], Name: "late-run-keeps-snapshot-when-current-empty", File: "internal/adapter/registry/unified_memory_registry.go", Rule: ruleA,
+			Old: "endpointURL); err == nil {\n		models = current", New: "endpointURL); err == nil && len(current) >= len(models) {\n		models = current"},
+		Mutant{Prop: ruleB[:3], Name: "empty-listing-not-unified", File: "internal/adapter/registry/unified_memory_registry.go", Rule: ruleB,
+			Old: "	go r.unifyModelsAsync(ctx, endpointURL, models)\n", New: "	if len(models) > 0 {\n		go r.unifyModelsAsync(ctx, endpointURL, models)\n	}\n"})
+}
+
+// instrReaches: some instruction of `from` can reach `to`.
+func instrReaches(from []ssa.Instruction, to ssa.Instruction) bool {
+	for _, s := range from {
+		if reachAvoiding(s, to, func(ssa.Instruction) bool { return false }) {
+			return true
+		}
+	}
+	return false
+}
+
+// C10: the model→endpoints lookup answers from the index that registrations rebuild completely, not from a cache a
+// query (or the last unification run) filled: C09-R5 under its C10 name.
+func init() {
+	registerExtra("C10", func(c *Ctx, r *Report) {
+		r.WithAlias(map[string]string{"C09-R5": "C10-R18"}, func() { checkC09(c, r) })
+	})
 }
